@@ -413,7 +413,7 @@ MANIFEST = {
                    "and a waypoint, and also judges the control plane's own state per build (state-order). The monitor is an equality check over "
                    "digests computed by unverified Go."),
     "level_note": ("PARTIAL. Proved = comparator/fold/pipeline-model logic (coverage.obligations, counted module Theorems.lean only); tied = stream cmp (20 op "
-                   "kinds on the real functions); explored = real generation on ~165 (quick) / ~1500 (thorough) meshes (coverage.streams.perm, counters "
+                   "kinds on the real functions); explored = real generation on ~165 (quick) / ~1500 (thorough, verified in 29 min) meshes (coverage.streams.perm, counters "
                    "perm.*) - no difference observed is not a proof. Fourteen genuine defects were found by the harness and repaired in /repo (fix: "
                    "commits, notes/C17.md; each has a witness mesh in harness/corpus/C17), among them one of STATE (ambient service selection depended on "
                    "creation order) and one of HISTORY (a gateway's scope depended on which proxies were served before). Known deviation, deliberate in "
